@@ -17,7 +17,8 @@ from vlib.api import Part, ok, bad
 ID = 'C18'
 LEVEL = 'fault_enumeration'
 RULE = ('Enumerated: 12 ways to end x 3 run lengths x 3 emit costs x 2 heartbeat intervals x {no, 40 ms} preemption inside event construction; generated: the same dimensions with arbitrary k, work, cost, interval, '
-        'external stop time. Non-trivial = the run lasted >= 1 heartbeat interval or ended by an exception. Distinct = distinct case value.')
+        'external stop time. Non-trivial = the run lasted >= 1 heartbeat interval or ended by an exception. Distinct = distinct case value.'
+        ' Ends also: propagated clean/error exit of an upstream neighbour, KeyboardInterrupt in setup/process/shutdown; run() called from inside an exception handler; configuration with a mapping whose key is not an identifier; preemption of the heartbeat thread inside event construction.')
 ASSUMPTIONS = ['thread interleavings are explored at the shim\'s yield points (Event.wait, Lock, emit), the only synchronisation points of lineage.py',
                'the lineage client is a capturing fake; OPENLINEAGE_DISABLED is unset']
 BUDGET = {'quick': 40, 'thorough': 600}
